@@ -26,7 +26,8 @@ func init() {
 			"R8 the client's chunked-upload bookkeeping is consistent (Content-Range end, ContentLength and the advance of `flushed` are one quantity; `size` advances only when Write can no longer fail), so a chunked upload relays the same writes the caller issued. " +
 			"R9 range dispatch (as C01.R6); R10 post-success refusals: after the backend accepted a call a handler refuses the request on its own only under the reviewed comparisons (blob range: start > Size, end < start). " +
 			"R4b the media type handed to PushManifest is the Content-Type header as sent (or the default). " +
-			"R5b ocidebug.New wraps exactly the registry it was given; R11 (shared with C07.R4) the %w discipline of the wire path.",
+			"R5b ocidebug.New wraps exactly the registry it was given; R11 (shared with C07.R4) the %w discipline of the wire path. " +
+			"R12 the client verifies a body under the algorithm of the descriptor's digest (digest.NewDigest(D.Algorithm(), h) compared with D), never a fixed one.",
 		NotDecided: "equality of bytes/descriptors on values, URL escaping of unusual names, behaviour under server options, and the Construct->Parse round trip on values are not decided.",
 		Technique:  "static analysis: extraction of request literals and dispatch table from SSA, comparison with reviewed tables, argument provenance, header-name set agreement",
 	})
@@ -104,6 +105,7 @@ func runC03(c *core.Ctx) {
 	wrapperHoldsItsRegistries(c, "C03.R5", "ocidebug", "New")
 	// an error of the registry behind keeps its identity through the server and the client (%w discipline, shared with C07.R4)
 	relabel(c, "C03.R11", func() { c07WrapDiscipline(c) })
+	digestComparedUnderItsOwnAlgorithm(c, "C03.R12", "ociclient")
 }
 
 // describe a value stored into a Request field in terms of method fn's parameters.
